@@ -5,7 +5,7 @@
 Whitelisted subset (anything else raises facts.TieBroken):
   statements : local assignment, augmented assignment (+=, -=, *=), if/elif/else, `for i in range(c[, c])`
                with literal bounds (unrolled), a single trailing `return`
-  expressions: names, int/float literals, + - * / and unary -, comparisons (also chained) in `if` tests,
+  expressions: names, int/float literals, + - * / and unary -, `a if c else b`, comparisons (also chained) in `if` tests,
                `and`/`or`/`not` in tests, math.pow(x, y) (literal non-negative integer y: repeated multiplication,
                otherwise the general power `tpow`), math.log, abs, list literals, subscripts with a literal
                index, `[e for x in <list>]`, `sum(e for x, y in zip(<list>, <list>))`, `self.<attr>` (becomes a
@@ -103,6 +103,12 @@ class Translator:
             if f is None:
                 raise TB('binary operator %s (line %d)' % (opn, e.lineno))
             return V('(%s T %s %s)' % (f, num(a), num(b)))
+        if isinstance(e, ast.IfExp):
+            c = self.test(e.test, env)
+            a, b = self.expr(e.body, env), self.expr(e.orelse, env)
+            if isinstance(a, L) or isinstance(b, L):
+                raise TB('conditional expression over lists (line %d)' % e.lineno)
+            return V('(if %s then %s else %s)' % (c, num(a), num(b)))
         if isinstance(e, ast.Call):
             return self.call(e, env)
         if isinstance(e, ast.List):
